@@ -210,13 +210,47 @@ def guarded_list_items(fn_node):
     return out
 
 
-def stmt_guards(fn_node):
+def local_env(fn_node):
+    """name -> value for locals bound exactly once by a plain assignment and never mutated in place (used to express conditions over
+    locals in terms of what they stand for)"""
+    from ..pynorm import function_scope_stores, subst
+    counts = {}
+    for name, _ in function_scope_stores(fn_node):
+        counts[name] = counts.get(name, 0) + 1
+    params = {a.arg for a in fn_node.args.posonlyargs + fn_node.args.args + fn_node.args.kwonlyargs}
+    mutated = set()
+    for n in ast.walk(fn_node):
+        if isinstance(n, ast.Call) and isinstance(n.func, ast.Attribute) and isinstance(n.func.value, ast.Name) \
+                and n.func.attr in ("append", "extend", "add", "update", "setdefault", "insert", "pop", "remove", "clear", "sort"):
+            mutated.add(n.func.value.id)
+        if isinstance(n, (ast.Subscript, ast.Attribute)) and isinstance(n.ctx, (ast.Store, ast.Del)) and isinstance(n.value, ast.Name):
+            mutated.add(n.value.id)
+    env = {}
+    for n in ast.walk(fn_node):
+        if isinstance(n, ast.Assign) and len(n.targets) == 1 and isinstance(n.targets[0], ast.Name):
+            name, val = n.targets[0].id, n.value
+        elif isinstance(n, ast.AnnAssign) and isinstance(n.target, ast.Name) and n.value is not None:
+            name, val = n.target.id, n.value
+        else:
+            continue
+        if counts.get(name) == 1 and name not in params and name not in mutated:
+            env[name] = val
+    for _ in range(4):      # close under itself
+        env = {k: subst(v, {x: y for x, y in env.items() if x != k}) for k, v in env.items()}
+    return env
+
+
+def stmt_guards(fn_node, env=None):
     """[(guards, stmt)] for every simple statement of a function, in source order. `guards` is the list of facts that hold whenever the
     statement runs: (condition source, polarity) pairs in the canonical form of pymodel._nnf, and ("for", target, iterable) entries for
     enclosing loops. An `if c: return / continue / raise` (an early exit) contributes `not c` to everything after it in the block -
     so a guard clause and the equivalent nested `if` give the same guards."""
-    from ..pymodel import _nnf
+    from ..pymodel import _nnf as _raw_nnf
+    from ..pynorm import subst
     out = []
+
+    def _nnf(test, pol, acc):
+        return _raw_nnf(subst(test, env) if env else test, pol, acc)
 
     def exits(body):
         return bool(body) and isinstance(body[-1], (ast.Return, ast.Continue, ast.Raise, ast.Break))
@@ -232,7 +266,7 @@ def stmt_guards(fn_node):
                 elif st.orelse and exits(st.orelse) and not exits(st.body):
                     guards = guards + _nnf(st.test, True, [])
             elif isinstance(st, (ast.For, ast.AsyncFor)):
-                walk(st.body, guards + [("for", ast.unparse(st.target), ast.unparse(st.iter))])
+                walk(st.body, guards + [("for", ast.unparse(st.target), ast.unparse(subst(st.iter, env) if env else st.iter))])
                 walk(st.orelse, guards)
             elif isinstance(st, (ast.With, ast.AsyncWith)):
                 walk(st.body, guards)
